@@ -105,8 +105,9 @@ class DoSBot(DatabaseClient, discriminator="dos-bot"):
             :return: Request Response object with a success code determining if the configuration was successful.
             :rtype: RequestResponse
             """
-            if "target_ip_address" in request[-1]:
-                request[-1]["target_ip_address"] = ipv4_validator(request[-1]["target_ip_address"])
+            if "target_ip_address" not in request[-1]:
+                return RequestResponse(status="failure", data={"reason": "target_ip_address is required to configure the DoSBot"})
+            request[-1]["target_ip_address"] = ipv4_validator(request[-1]["target_ip_address"])
             if "target_port" in request[-1]:
                 request[-1]["target_port"] = port_validator(request[-1]["target_port"])
             return RequestResponse.from_bool(self.configure(**request[-1]))
